@@ -1,0 +1,24 @@
+//go:build verif
+
+package peer_store
+
+// Machine-checked contracts, read by the govc verifier under /verif. Comment-only.
+// C11: the in-memory peer store is a map infohash -> (IP bytes -> endpoint). An announce overwrites exactly the entry
+// of its IP under its infohash; a lookup returns only endpoints stored under the requested infohash.
+
+//@ func (*dht/peer-store.InMemory).AddPeer
+//@   requires nonnil: me != nil
+//@   requires unlocked: !held(me.mu)
+//@   modifies cell(me.index), me.index, me.index[ih]
+//@   ensures stored-under-its-ip: (ih in me.index) && me.index[ih] != nil && (old(bstr(na.IP)) in me.index[ih]) && me.index[ih][old(bstr(na.IP))].NodeAddr == na
+//@   ensures other-ips-untouched: forall k string :: k != old(bstr(na.IP)) ==> (k in me.index[ih]) == old(k in me.index[ih]) && me.index[ih][k] == old(me.index[ih][k])
+//@   ensures other-infohashes-untouched: forall h InfoHash :: h != ih ==> (h in me.index) == old(h in me.index) && me.index[h] == old(me.index[h])
+
+//@ func (*dht/peer-store.InMemory).GetPeers
+//@   requires nonnil: me != nil
+//@   requires unlocked: !held(me.mu)
+//@   ensures only-announced-endpoints: forall j int :: 0 <= j && j < len(ret) ==> (exists k string :: (k in me.index[ih]) && ret[j] == me.index[ih][k].NodeAddr)
+//@   ensures as-many-as-stored: len(ret) == len(me.index[ih])
+//@   loop 1
+//@     modifies ret[:]
+//@     invariant filled-so-far: 0 <= i && i == $iter && len(ret) == len(nodes) && nodes == me.index[ih] && (forall j int :: 0 <= j && j < i && j < len(ret) ==> (exists k string :: (k in nodes) && ret[j] == nodes[k].NodeAddr))
